@@ -5,4 +5,5 @@ from . import conn, families, mc
 
 def run(v):
     mc.run_for(v, 'C17')
-    conn.check(v, 'C17', families.FAMILIES['C17'])
+    # "requests issued afterwards are served": with the right payloads - nothing of the old connection may leak into them
+    conn.check(v, 'C17', families.FAMILIES['C17'], also=('C01.intact', 'C01.deliver_is_next', 'C01.correlation'))
